@@ -9,7 +9,7 @@ PROPS = {
         has_enum=True,
         enum_shards={"all_partitions": {"quick": 1, "thorough": 1}},
         rule="lock-step SPMD rapidcheck under mpirun -np k (k in 1,2,3,4,5,8; 1..8 thorough): every rank decodes the same global case "
-             "(rectangular integer-valued sparse A (n x m), B (m x p), n,m,p <= 60, real and complex; contiguous row/column partitions generated as "
+             "(rectangular integer-valued sparse A (n x m), B (m x p), n,m,p <= 60, real, complex and 2x2 block values; contiguous row/column partitions generated as "
              "balanced / random cuts with empty ranks / everything on one rank), runs mul, residual, mpi::inner_product, transpose, product, scale, "
              "sort_rows, remote_rows, copy to a single-precision backend, spectral_radius, and the assembled results are compared bitwise with dense "
              "serial references; collective scalars gathered from every rank must be identical. Exhaustive: all contiguous partitions of n<=5 (6 thorough) rows over the "
